@@ -102,9 +102,13 @@ def remove_redundant_chained_calls(source: str) -> str:
     )
 
     for node in core.walk(root, templates):
-        arg = node.args[0].args[0]
-        while core.match_template(arg, templates):
-            arg = arg.args[0].args[0]
+        # Only calls that are redundant under this particular outer call may be skipped
+        inner_template = ast.Call(
+            func=ast.Name(id=tuple(outer_inner_redundancy_mapping[node.func.id])), args=[object]
+        )
+        arg = node.args[0]
+        while core.match_template(arg, inner_template):
+            arg = arg.args[0]
         yield node, ast.Call(func=node.func, args=[arg], keywords=[])
 
     # If inner is present, outer is redundant
